@@ -28,7 +28,7 @@ FrameOK == CheckFrame => Ev.frame
 TraceCall ==
     /\ Ev.op \in BinOps \cup UnOps /\ ~Ev.panic
     /\ LET st == [op |-> Ev.op, a |-> Ev.a, b |-> Ev.b, o |-> Ev.o, new |-> Ev.new, k |-> Ev.k] IN
-       /\ Call(st, [deg |-> Ev.res.deg, err |-> Ev.err])
+       /\ Call(st, [deg |-> Ev.res.deg, err |-> Ev.err, lvl |-> Ev.res.lvl])
        /\ Match(Ev.res, reg'[Ev.o])
     /\ FrameOK
 
